@@ -387,6 +387,10 @@ impl Machine {
                 let a = self.pop();
                 let b = self.pop();
                 let r = eq(a, b);
+                // trace: a digest computed from a witness preimage matched the script's constant
+                if r && a.t == tag::HASH && a.a < 8 {
+                    self.t_pres |= 1 << a.a;
+                }
                 if c == op::EQUAL {
                     self.push(boolel(r));
                 } else if !r {
@@ -430,7 +434,6 @@ impl Machine {
                     _ => H_HASH160,
                 };
                 let r = if e.t == tag::PRE && (e.a as usize) < 4 && env.hashkind[e.a as usize] == kind {
-                    self.t_pres |= 1 << e.a;
                     el(tag::HASH, e.a, 0)
                 } else if e.t == tag::KEY && c == op::HASH160 {
                     el(tag::KEYHASH, e.a, 0)
